@@ -8,6 +8,7 @@ import Driver.Construct
 import Driver.Hist
 import Driver.Scalar
 import Driver.Fmt
+import Driver.Ledger
 
 open Driver
 
@@ -19,19 +20,29 @@ def dispatch (w : World) (ws : List String) : World × String :=
     | some r => r
     | none => (w, "bad-op")
 
-partial def loop (h : IO.FS.Stream) (out : IO.FS.Stream) (w : World) : IO Unit := do
+partial def loop (h : IO.FS.Stream) (out : IO.FS.Stream) (w : World) (ls : LedState) : IO Unit := do
   let line ← h.getLine
   if line.isEmpty then return ()
   let l := line.trimAscii.toString
   if l.startsWith "#" then
     out.putStrLn l
-    loop h out w
+    -- a new case starts with fresh registers and a fresh ledger
+    loop h out w {}
+  else if l.startsWith "L " then
+    -- C01: the operation, followed by the ledger delta the ownership model predicts
+    let ws := (l.drop 2).toString.splitOn " "
+    let (w', s) := dispatch w ws
+    let head := ((s.splitOn " | ").headD "")
+    let head := if head.startsWith "ok" then "ok" else head
+    let (ls', d) := ledFlow ls w ws head
+    out.putStrLn (s ++ s!" | led +{d.1} -{d.2}")
+    loop h out w' ls'
   else
     let (w', s) := dispatch w (l.splitOn " ")
     out.putStrLn s
-    loop h out w'
+    loop h out w' ls
 
 def main : IO Unit := do
   let out ← IO.getStdout
-  loop (← IO.getStdin) out {}
+  loop (← IO.getStdin) out {} {}
   out.flush
